@@ -131,6 +131,20 @@ CHECKS.update({
             "violation); bars have positive length.", "DESIGN.md §4 C03, §5 K1"),
 })
 
+CHECKS.update({
+    "C04": (True, "symbolic evaluation of _transform with built-in and uninterpreted weight/kernel functions to a per-pixel "
+                  "normal form (loop fold, mesh flatten/reshape tracking), compared with the inclusion-exclusion formula",
+            CLAUSE + "Decides PI-PIXEL (pixel = sum of weight x CDF inclusion-exclusion over the pixel's corners in "
+            "birth-persistence coordinates, for every diagram size and grid, for built-in paths and arbitrary user "
+            "weight/kernel), PI-AXIS, PI-UNITS, PI-FAST, PI-REG. Declines: CDF values/accuracy (C13), correlated Gaussian path.",
+            SYMNOTE + "User weight/kernel callables are element-wise.", "DESIGN.md §4 C04"),
+    "C11": (True, "loop-summary (additive fold) and row-dependence analysis of the symbolically evaluated image; call-site "
+                  "argument-binding comparison; ownership analysis of the conversion sites",
+            CLAUSE + "Decides AD-FOLD (additive, order-free, zeros for empty), AD-ZERO, AD-EMPTY, AD-PAR, AD-WRAP, AD-SKEW. "
+            "Declines: non-negativity and pixel-total bounds (CDF monotonicity), bit-identical serial/parallel floats.",
+            SYMNOTE + "joblib preserves order.", "DESIGN.md §4 C11"),
+})
+
 NOT_APPLICABLE = {
     "C05": "soundness of the mGH lower/upper bounds is a theorem about computed values for every graph pair and RNG "
            "draw; no ownership, ordering, wiring or algebraic-type argument implies it (DESIGN.md §6); nearby "
